@@ -455,7 +455,7 @@ func checkMain(args []string) int {
 		s.aggs[u.Name] = a
 		s.order = append(s.order, u.Name)
 		for _, as := range assigns {
-			j := &Job{Unit: u.Name, Harness: u.Harness, Sets: as, MaxSteps: u.MaxSteps, MaxDepth: u.MaxDepth, TimeoutMs: u.TimeoutMs, NoInit: u.NoInit, InitPkgs: u.InitPkgs, Warm: u.Warm, MaxConc: u.MaxConc, ConcRet: u.ConcRet}
+			j := &Job{Unit: u.Name, Harness: u.Harness, Sets: as, MaxSteps: u.MaxSteps, MaxDepth: u.MaxDepth, TimeoutMs: u.TimeoutMs, NoInit: u.NoInit, InitPkgs: u.InitPkgs, Warm: u.Warm, MaxConc: u.MaxConc, ConcRet: u.ConcRet, HangIsBug: u.HangIsBug}
 			j.MaxPaths, _ = tierVal(u.MaxPaths, tier)
 			j.Frontier, _ = tierVal(u.Split, tier)
 			j.DeadlineS, _ = tierVal(u.DeadlineS, tier)
@@ -607,6 +607,9 @@ func conclude(spec *Spec, s *sched, tier string, seed int, t0 time.Time, noEvide
 			if rep.Ends[st] > 0 {
 				if u.BudgetOK && (st == "PATHBUDGET" || st == "TIMEBUDGET") {
 					continue
+				}
+				if u.HangIsBug && st == "BUDGET" {
+					continue // reported as a violation candidate and replayed natively
 				}
 				msg := fmt.Sprintf("%d paths ended %s", rep.Ends[st], st)
 				for _, r := range a.results {
